@@ -313,22 +313,22 @@ Fixpoint gates_from (lab : nat -> nat * nat) (k : nat) (c : list (nat * nat * Q)
 
 Definition lo_combos : list (bool * bool) := [(true, false); (false, true); (true, true)].
 
-Definition domain_check (lab : nat -> nat * nat) (maxq : nat) (gammas : list Q) (n : nat) : bool :=
+(* the check over a list of (circuit, #qubits used): idle qubits up to maxq, every W in 1..maxq, every cut-kind combination *)
+Definition list_check (lab : nat -> nat * nat) (maxq : nat) (l : list (list (nat * nat * Q) * nat)) : bool :=
   forallb (fun cu => let '(c, used) := cu in
     let gs := gates_from lab 0 c in
     forallb (fun nq =>
       forallb (fun W =>
         forallb (fun lo => pruning_check gs (fst lo) (snd lo) W nq) lo_combos)
         (seq 1 maxq))
-      (seq used (S maxq - used)))
-    (circuits_upto maxq gammas n).
+      (seq used (S maxq - used))) l.
 
-Lemma domain_check_sound lab maxq gammas n : domain_check lab maxq gammas n = true ->
-  forall c used, In (c, used) (circuits_upto maxq gammas n) -> gammas_ok (gates_from lab 0 c) ->
+Lemma list_check_sound lab maxq l : list_check lab maxq l = true ->
+  forall c used, In (c, used) l -> gammas_ok (gates_from lab 0 c) ->
   forall nq W gl wl mg, used <= nq <= maxq -> 1 <= W <= maxq -> In (gl, wl) lo_combos ->
   pruning_sound_for (gates_from lab 0 c) gl wl W mg nq.
 Proof.
-  unfold domain_check. intros H c used Ic Gk nq W gl wl mg Hn HW Ilo.
+  unfold list_check. intros H c used Ic Gk nq W gl wl mg Hn HW Ilo.
   rewrite forallb_forall in H. specialize (H _ Ic). cbn beta iota in H.
   rewrite forallb_forall in H. assert (In nq (seq used (S maxq - used))) as Inq by (apply in_seq; lia).
   specialize (H _ Inq). rewrite forallb_forall in H.
@@ -337,9 +337,9 @@ Proof.
   now apply pruning_check_sound.
 Qed.
 
-(* the gammas of the domain are >= 1 *)
-Definition domain_gammas_check (maxq : nat) (gammas : list Q) (n : nat) : bool :=
-  forallb (fun cu => forallb (fun g => Qleb 1 (snd g)) (fst cu)) (circuits_upto maxq gammas n).
+(* the gammas of a list of circuits are >= 1 *)
+Definition list_gammas_check (l : list (list (nat * nat * Q) * nat)) : bool :=
+  forallb (fun cu => forallb (fun g => Qleb 1 (snd g)) (fst cu)) l.
 
 Lemma gates_from_gammas_ok lab : forall c k, forallb (fun g => Qleb 1 (snd g)) c = true -> gammas_ok (gates_from lab k c).
 Proof.
@@ -349,25 +349,44 @@ Proof.
   - eapply IH; eauto.
 Qed.
 
-(* ---- the finite domain of C08: <= 4 qubits, <= 3 two-qubit gates, gammas {3, 7} ---- *)
-Definition c08_domain : list (list (nat * nat * Q) * nat) := circuits_upto 4 [3%Q; 7%Q] 3.
-
-Lemma c08_domain_checked : forall lab, domain_check lab 4 [3%Q; 7%Q] 3 = true.
-Proof. intros lab. vm_compute. reflexivity. Qed.
-
-Lemma c08_domain_gammas : domain_gammas_check 4 [3%Q; 7%Q] 3 = true.
-Proof. vm_compute. reflexivity. Qed.
-
-Lemma c08_domain_gammas_ok lab c used : In (c, used) c08_domain -> gammas_ok (gates_from lab 0 c).
+Lemma list_gammas_ok lab l c used : list_gammas_check l = true -> In (c, used) l -> gammas_ok (gates_from lab 0 c).
 Proof.
-  intros I. apply gates_from_gammas_ok. pose proof c08_domain_gammas as H. unfold domain_gammas_check in H.
-  rewrite forallb_forall in H. exact (H _ I).
+  intros H I. apply gates_from_gammas_ok. unfold list_gammas_check in H. rewrite forallb_forall in H. exact (H _ I).
 Qed.
 
-Lemma pruning_sound_bounded lab c used : In (c, used) c08_domain ->
-  forall nq W gl wl mg, used <= nq <= 4 -> 1 <= W <= 4 -> In (gl, wl) lo_combos ->
-  pruning_sound_for (gates_from lab 0 c) gl wl W mg nq.
-Proof. intros I. exact (domain_check_sound lab 4 [3%Q; 7%Q] 3 (c08_domain_checked lab) c used I (c08_domain_gammas_ok lab c used I)). Qed.
+(* splitting a long list into chunks (the 4-gate part of the domain is checked in several files) *)
+Fixpoint chunks {A} (n k : nat) (l : list A) : list (list A) :=
+  match k with O => [l] | S k' => firstn n l :: chunks n k' (skipn n l) end.
+
+Lemma in_chunks {A} (n : nat) (x : A) : forall k l, In x l -> exists c, In c (chunks n k l) /\ In x c.
+Proof.
+  induction k as [|k IH]; intros l I; cbn [chunks].
+  - exists l; split; [left; reflexivity|exact I].
+  - rewrite <- (firstn_skipn n l) in I. apply in_app_or in I. destruct I as [I|I].
+    + exists (firstn n l); split; [left; reflexivity|exact I].
+    + destruct (IH _ I) as (c&Ic&Ix). exists c; split; [right; exact Ic|exact Ix].
+Qed.
+
+(* ---- the finite domain of C08: <= 4 qubits, <= 4 two-qubit gates, gammas {3, 7} ---- *)
+Definition c08_gammas : list Q := [3%Q; 7%Q].
+Definition c08_domain3 : list (list (nat * nat * Q) * nat) := circuits_upto 4 c08_gammas 3.
+Definition c08_exact4 : list (list (nat * nat * Q) * nat) := circuits_exact 4 c08_gammas 4.
+Definition c08_chunks4 : list (list (list (nat * nat * Q) * nat)) := chunks 2320 5 c08_exact4.
+Definition c08_domain : list (list (nat * nat * Q) * nat) := circuits_upto 4 c08_gammas 4.
+
+Lemma c08_domain3_checked : forall lab, list_check lab 4 c08_domain3 = true.
+Proof. intros lab. vm_compute. reflexivity. Qed.
+
+Lemma c08_domain_gammas : list_gammas_check c08_domain = true.
+Proof. vm_compute. reflexivity. Qed.
+
+Lemma c08_domain_split x : In x c08_domain -> In x c08_domain3 \/ In x c08_exact4.
+Proof.
+  unfold c08_domain, c08_domain3, c08_exact4, circuits_upto. intros I.
+  apply in_flat_map in I. destruct I as (n&In_&Ix). apply in_seq in In_.
+  destruct (Nat.eq_dec n 4) as [->|N]; [right; exact Ix|left].
+  apply in_flat_map. exists n; split; [apply in_seq; lia|exact Ix].
+Qed.
 
 (* ------------------------------------------------------------------------------------ *)
 (* flag soundness against the specification                                               *)
@@ -383,16 +402,4 @@ Proof.
   destruct (PS A c HA) as [(g&Eg&Lg)|(g&R&Gg&Lg)].
   - eapply Qle_trans; [|exact Lg]. apply (of_greedy _ _ _ _ _ _ OF). exact Eg.
   - eapply Qle_trans; [|exact Lg]. apply (of_flag _ _ _ _ _ _ OF); [congruence|exact R|exact Gg].
-Qed.
-
-Lemma flag_sound_bounded fuel i r lab c used : In (c, used) c08_domain ->
-  fa_gates (fa_of i) = gates_from lab 0 c -> used <= nq_of i <= 4 -> 1 <= fi_W i <= 4 ->
-  In (fi_gate_lo i, fi_wire_lo i) lo_combos ->
-  find_cuts_full fuel i = Val r -> md_minimum_reached (fr_meta r) = true ->
-  forall A k, assignment_cost (nq_of i) (fi_W i) (fi_gate_lo i) (fi_wire_lo i) (sgates_of (fa_gates (fa_of i))) A = Some k ->
-  (md_overhead (fr_meta r) <= k * k)%Q.
-Proof.
-  intros I Eg Hn HW Ilo H F. apply (flag_sound_spec fuel i r); auto.
-  - unfold gammas_ok_in. rewrite Eg. eapply c08_domain_gammas_ok; eauto.
-  - rewrite Eg. eapply pruning_sound_bounded; eauto.
 Qed.
